@@ -270,6 +270,31 @@ Definition delaunay_adj (pts : list pt) (i j : Z) : bool :=
                      empty_circle pts (znth pts i (0, 0)) (znth pts j (0, 0)) (znth pts k (0, 0))) (idxs pts)).
 Definition delaunay_nbrs (pts : list pt) (i : Z) : list Z := filter (delaunay_adj pts i) (idxs pts).
 
+(* translation validation of one triangulation (the triangles VoronoiGrid's Delaunay object exports):
+   every exported triangle, read in each of its six vertex orders, has in-range distinct vertices and an
+   empty proper circumcircle; and every (i, j, k) with an empty circumcircle has its edge i-j in some triangle *)
+Definition tri := (Z * Z * Z)%type.
+Definition perms3 (t : tri) : list tri :=
+  let '(a, b, c) := t in [(a, b, c); (b, a, c); (a, c, b); (c, a, b); (b, c, a); (c, b, a)].
+Definition in_range (pts : list pt) (i : Z) : bool := (0 <=? i) && (i <? Z.of_nat (length pts)).
+Definition pnt (pts : list pt) (i : Z) : pt := znth pts i (0, 0).
+Definition tri_ok (pts : list pt) (t : tri) : bool :=
+  let '(x, y, z) := t in
+  in_range pts x && in_range pts y && in_range pts z &&
+  negb (x =? y) && negb (x =? z) && negb (y =? z) &&
+  empty_circle pts (pnt pts x) (pnt pts y) (pnt pts z).
+Definition tri_adj (tris : list tri) (i j : Z) : bool :=
+  existsb (fun t => existsb (fun p => let '(x, y, _) := p in (x =? i) && (y =? j)) (perms3 t)) tris.
+Definition delaunay_cert (pts : list pt) (tris : list tri) : bool :=
+  forallb (fun t => forallb (tri_ok pts) (perms3 t)) tris &&
+  forallb (fun i => forallb (fun j => forallb (fun k =>
+     implb (negb (i =? j) && negb (k =? i) && negb (k =? j) &&
+            empty_circle pts (pnt pts i) (pnt pts j) (pnt pts k))
+           (tri_adj tris i j)) (idxs pts)) (idxs pts)) (idxs pts).
+Definition tri_edges (tris : list tri) : list Z :=
+  zdedup (flat_map (fun t => let '(a, b, c) := t in
+            [Z.min a b * 1000 + Z.max a b; Z.min a c * 1000 + Z.max a c; Z.min b c * 1000 + Z.max b c]) tris).
+
 (* ------------------------------------------------------------------ 5. histories *)
 Inductive space :=
 | SOrth (moore : bool) (dims : list Z) (torus : bool)
@@ -297,7 +322,8 @@ Definition cell_exists (t : table) (c : cell) : bool := (0 <=? c) && (c <? Z.of_
 Inductive op :=
 | Build (tbl : table)                           (* read every cell's connections; tbl = what the implementation holds *)
 | Nbhd (form : Z) (c : cell) (r : Z) (ic : bool) (* cell.get_neighborhood(r, ic); form 0 positional, 1 keyword *)
-| NbhdProp (c : cell).                          (* cell.neighborhood *)
+| NbhdProp (c : cell)                           (* cell.neighborhood *)
+| Cert (tris : list tri).                       (* VoronoiGrid: triangulation.export_triangles(), validated here *)
 
 Definition obs_set (l : list Z) : list Z := (if has_dup l then 1 else 0) :: zsort l.
 Definition obs_conn_row (row : list (Z * cell)) : list Z :=
@@ -305,6 +331,12 @@ Definition obs_conn_row (row : list (Z * cell)) : list Z :=
 Definition obs_conns (t : list (list (Z * cell))) : list Z := flat_map obs_conn_row t.
 Definition obs_result (r : result (list cell)) : list Z :=
   match r with Ok v => obs_set v | Err k => [-1; k] end.
+
+Definition obs_cert (sp : space) (tris : list tri) : list Z :=
+  match sp with
+  | SVor pts => (if delaunay_cert pts tris then 1 else 0) :: zsort (tri_edges tris)
+  | _ => [-2]
+  end.
 
 Record state := { st_tbl : option table; st_cache : cache }.
 Definition init_state : state := {| st_tbl := None; st_cache := [] |}.
@@ -339,6 +371,7 @@ Section Step.
               ({| st_tbl := Some t; st_cache := fst res |}, obs_result (snd res))
             else (st, [-2])
         end
+    | Cert tris => (st, obs_cert sp tris)
     end.
 
   Fixpoint run_ops (st : state) (ops : list op) : list (list Z) :=
